@@ -206,30 +206,46 @@ func InclusiveRangeContains(
 	end := getFieldAsIntegerValue(context, rangeValue, sema.InclusiveRangeTypeEndFieldName)
 	step := getFieldAsIntegerValue(context, rangeValue, sema.InclusiveRangeTypeStepFieldName)
 
-	result := start.Equal(context, needleValue) ||
-		end.Equal(context, needleValue)
-
-	if result {
+	// The start is always an element of the sequence.
+	if start.Equal(context, needleValue) {
 		return TrueValue
 	}
 
-	// Exclusive check since we already checked for boundaries above.
-	if !isNeedleBetweenStartEndExclusive(context, needleValue, start, end) {
-		result = false
-	} else {
-		// needle is in between start and end.
-		// start + k * step should be equal to needle i.e. (needle - start) mod step == 0.
-		diff, ok := needleValue.Minus(context, start).(IntegerValue)
+	// The end is only an element of the sequence if it is reachable from the start,
+	// so it is checked like all other values between the start and the end.
+	if !end.Equal(context, needleValue) &&
+		!isNeedleBetweenStartEndExclusive(context, needleValue, start, end) {
+
+		return FalseValue
+	}
+
+	// needle is in between start (exclusive) and end (inclusive).
+	// start + k * step should be equal to needle i.e. (needle - start) mod step == 0.
+
+	zeroValue := GetSmallIntegerValue(0, rangeType.ElementType)
+
+	// needle - start might not be representable in the element type
+	// if needle and start are on different sides of zero.
+	// In that case, instead of start, use the value (start mod step) + step:
+	// It is congruent to start modulo step, and it is on the same side of zero as needle,
+	// because start mod step is zero or has the sign of start, and is smaller in magnitude than step,
+	// and step points from start towards needle.
+	base := start
+	if needleValue.Less(context, zeroValue) != start.Less(context, zeroValue) {
+		var ok bool
+		base, ok = start.Mod(context, step).Plus(context, step).(IntegerValue)
 		if !ok {
 			panic(errors.NewUnreachableError())
 		}
-
-		zeroValue := GetSmallIntegerValue(0, rangeType.ElementType)
-		mod := diff.Mod(context, step)
-		result = mod.Equal(context, zeroValue)
 	}
 
-	return BoolValue(result)
+	diff, ok := needleValue.Minus(context, base).(IntegerValue)
+	if !ok {
+		panic(errors.NewUnreachableError())
+	}
+
+	mod := diff.Mod(context, step)
+	return BoolValue(mod.Equal(context, zeroValue))
 }
 
 func getFieldAsIntegerValue(context ContainerElementContext, rangeValue *CompositeValue, name string) IntegerValue {
